@@ -1,3 +1,4 @@
+import PasetoModel.Json
 import PasetoModel.Forms
 import PasetoModel.Pae
 import Driver.Parse
@@ -315,6 +316,9 @@ def step (line : String) : Option String :=
         some (showRes ((claimsDecode (some ms)).map (fun c => showClaims c ++ " gen=1")))
       else if top.startsWith "X:" then some (showRes ((claimsDecode none).map showClaims))
       else none
+  | ["claims.json", c] => do
+      let c ← parseClaims c
+      some ("ok " ++ toHex (PM.Json.claimsJson c))
   | ["claims.enc", c] => do
       let c ← parseClaims c
       some ("ok " ++ showMembers (claimsEncode (fun _ => []) c) ++ " rfc3339=1 rt=1")
